@@ -265,8 +265,8 @@ var kpColl *keeper
 
 func collKey(name string) string { return strings.ToUpper(name) }
 
-// nameKey: the same comparison written in lower case, as the generated syntax trees spell their keys
-func nameKey(name string) string { return strings.ToLower(strings.ToUpper(name)) }
+// nameKey: the same comparison; the generated syntax trees spell their keys this way too
+func nameKey(name string) string { return strings.ToUpper(name) }
 
 func execNames(in Ev) Ev {
 	a := astFromEv(in)
@@ -455,7 +455,7 @@ func genC18(g *Gen) {
 				a := &xast{}
 				var root int
 				addVar := func(nm string) {
-					v := a.add(xnode{K: "var", Text: nm, Key: strings.ToLower(nm)})
+					v := a.add(xnode{K: "var", Text: nm, Key: strings.ToUpper(nm)})
 					if root == 0 {
 						root = v
 					} else {
@@ -479,6 +479,25 @@ func genC18(g *Gen) {
 					}
 				}
 				g.Run("many distinct variables, late ones repeated", []Ev{{"op": "names", "nodes": nodesAny(a), "root": root, "mode": 0, "pseed": int(r.Int31())}})
+			}
+		}
+		// two names that one case mapping identifies and the other does not (the collections compare in upper case)
+		for _, pr := range [][2]string{{"temp\u212a", "tempk"}, {"ma\u00df", "MA\u1e9e"}, {"\u00e5x", "\u212bx"}, {"\u0131d", "id"}, {"\u017fum", "sum_"}, {"a\u0130", "ai"}, {"\u03c9", "\u2126"}, {"x\u00b5", "x\u03bc"}} {
+			for variant := 0; variant < 3; variant++ {
+				a := &xast{}
+				v1 := a.add(xnode{K: "var", Text: pr[0], Key: strings.ToUpper(pr[0])})
+				c2 := a.add(xnode{K: "const", Op: "int", Text: "2"})
+				m := a.add(xnode{K: "bin", Op: "Star", Kids: []int{v1, c2}})
+				v2 := a.add(xnode{K: "var", Text: pr[1], Key: strings.ToUpper(pr[1])})
+				root := a.add(xnode{K: "bin", Op: "Plus", Kids: []int{m, v2}})
+				if variant == 1 {
+					v3 := a.add(xnode{K: "var", Text: pr[0], Key: strings.ToUpper(pr[0])})
+					root = a.add(xnode{K: "bin", Op: "Minus", Kids: []int{root, v3}})
+				}
+				if variant == 2 {
+					root = a.add(xnode{K: "bin", Op: "Plus", Kids: []int{v2, m}})
+				}
+				g.Run("names that only one case mapping identifies", []Ev{{"op": "names", "nodes": nodesAny(a), "root": root, "mode": 0, "pseed": int(r.Int31())}})
 			}
 		}
 		// identifiers that look like something else: function names, keywords inside quotes, quoted identifiers
